@@ -104,6 +104,25 @@ def set_path(t, path, v):
 
 UNDEF = ('undef',)
 
+def known_variant(t):
+    """variant name when the constructor of an enum-valued term is known on its face"""
+    while True:
+        k = t[0]
+        if k == 'named': t = t[2]; continue
+        if k == 'adt': return t[2]
+        if k == 'upd':
+            for s, _ in t[2]:
+                if s[0] == 'v': return s[1]
+            return None
+        return None
+
+def discr_base(t):
+    """the term whose discriminant decides t's variant (struct-field updates do not change it)"""
+    while True:
+        if t[0] == 'named': t = t[2]; continue
+        if t[0] == 'upd' and all(s[0] != 'v' for s, _ in t[2]): t = t[1]; continue
+        return t
+
 # ------------------------------------------------------------------ program
 class Program:
     def __init__(self, facts):
@@ -375,13 +394,11 @@ class Interp:
             return ('un', r['op'], a)
         if k == 'discr':
             v = self.read_place(st, fr, r['pl'])
-            v = self.deref(st, v)
-            if v[0] == 'adt':
+            v = discr_base(self.deref(st, v))
+            kv = known_variant(v)
+            if kv is not None:
                 for val, name in r['variants']:
-                    if name == v[2]: return C(int(val))
-            if v[0] == 'named' and v[2][0] == 'adt':
-                for val, name in r['variants']:
-                    if name == v[2][2]: return C(int(val))
+                    if name == kv: return C(int(val))
             return ('discr', v, tuple((int(a), b) for a, b in r['variants']))
         if k == 'aggregate':
             ops = [self.operand(st, fr, o) for o in r['ops']]
@@ -492,8 +509,9 @@ class Interp:
 
     def fork_variants(self, st, x, names, site):
         """fork on the variant of enum-valued term x; returns [(state, variant)]"""
-        x0 = x[2] if x[0] == 'named' else x
-        if x0[0] == 'adt': return [(st, x0[2])]
+        x0 = discr_base(x)
+        kv = known_variant(x0)
+        if kv is not None: return [(st, kv)]
         kn = st.known.get(('d', x0))
         if kn and kn[0] == 'is': return [(st, kn[1])]
         excluded = set(kn[1]) if kn else set()
